@@ -9,9 +9,7 @@ from fparser.two.utils import Base, walk, StmtBase
 
 
 def units(tier):
-    if tier == "quick":
-        return PG.program_units(tier, "wf_prog", ics=(True, False), rotate=True)
-    return PG.program_units(tier, "wf_prog", ics=(True, False))
+    return PG.program_units(tier, "wf_prog", ics=(True, False), rotate=True)
 
 
 def meta(tier):
@@ -20,7 +18,7 @@ def meta(tier):
                             standards=["f2003", "f2008"], ignore_comments=[True, False]),
                 assumptions=["names differ from keywords/intrinsics; labels distinct",
                              "graph checks are concrete per path; the solver quantifies over the lexemes that select the path"],
-                budget_s=400 if q else 3300, unit_budget_s=60 if q else 300)
+                budget_s=400 if q else 2400, unit_budget_s=60 if q else 300)
 
 
 def _kids(node, out):
